@@ -50,6 +50,21 @@ fn main() {
             rep.wall_ms = t0.elapsed().as_millis() as u64;
             emit(&trace, &rep, &lines, flag("--log"));
         }
+        // several seeded runs in this process (engines whose runs do not depend on process-level state)
+        Some("many") => {
+            install_panic_hook();
+            let engine = &args[2];
+            let prop = &args[3];
+            let first: u64 = args[4].parse().expect("seed");
+            let count: u64 = args[5].parse().expect("count");
+            for i in 0..count {
+                let t0 = std::time::Instant::now();
+                let trace = engines::generate(engine, prop, first.wrapping_add(i), flag("--thorough"));
+                let (mut rep, lines) = engines::execute(&trace, false);
+                rep.wall_ms = t0.elapsed().as_millis() as u64;
+                emit(&trace, &rep, &lines, false);
+            }
+        }
         Some("gen") => {
             let trace = engines::generate(&args[2], &args[3], args[4].parse().expect("seed"), flag("--thorough"));
             println!("{}", serde_json::to_string_pretty(&trace).unwrap());
